@@ -911,7 +911,10 @@ namespace avel {
     [[nodiscard]]
     AVEL_FINL vec2x64f negate(mask2x64f m, vec2x64f v) {
         #if defined(AVEL_AVX512VL) || defined(AVEL_AVX10_1)
-        return vec2x64f{_mm_mask_sub_pd(decay(v), decay(m), _mm_setzero_pd(), decay(v))};
+        // Flip the sign bit of the selected lanes (0 - v would keep the sign of zeros and NaNs)
+        auto bits = _mm_castpd_si128(decay(v));
+        auto flipped = _mm_mask_xor_epi64(bits, decay(m), bits, _mm_set1_epi64x(0x8000000000000000ull));
+        return vec2x64f{_mm_castsi128_pd(flipped)};
 
         #elif defined(AVEL_SSE2)
         auto negation_mask = _mm_and_pd(decay(m), _mm_set1_pd(double_sign_bit_mask));
